@@ -30,6 +30,8 @@ def outcome_ok(spec, out, ctx=None):
         exp = ("val", ref.ref_eval(spec, ctx))
     except ref.Raised as r:
         exp = ("err", r.msgs)
+    except ref.Ambiguous:
+        return True, ("ambiguous", None)
     if "result" in out:
         return exp[0] == "val" and norm(exp[1]) == norm(out["result"]), exp
     if "error" in out:
